@@ -213,7 +213,8 @@ def renderObs (s : St) (verdict : String) (outs : List Out) (impl : List (String
     | "bytes" =>
       match s.bf with
       | some b =>
-        if !s.loaded then "0" else
+        -- (also while the torrent is stopped: the completed bytes follow from the bitfield and the metainfo alone,
+        -- repair of finding C04-F7)
         toString ((List.range s.n).foldl (fun acc i => if b.getD i false then acc + s.cfg.plens.getD i 0 else acc) 0)
       | none => "0"
     | "dl" => dlTok
@@ -326,6 +327,10 @@ def oracles (prev s : St) (impl : List (String × String)) (prevDials : Nat := 0
     (if st = "Stopped" && get "npeers" ≠ "0" then ["C04 stopped-with-peers"] else []) ++
     (if st = "Stopped" && get "open" ≠ "0" then [s!"C04 stopped-with-open-files open={get "open"}"] else []) ++
     (if st = "Stopped" && get "dl" ≠ "-" then ["C04 stopped-with-downloads"] else []) ++
+    -- completed bytes consistent with the pieces held (the implementation's own bitfield), in every state
+    (if implBf ≠ "-" && implBf ≠ "" && get "bytes" ≠ "" &&
+        get "bytes" ≠ toString ((List.range bfBits.length).foldl (fun acc i => if bfBits.getD i false then acc + s.cfg.plens.getD i 0 else acc) 0)
+      then [s!"C04 completed-bytes-inconsistent-with-pieces-held bytes={get "bytes"} bf={implBf}"] else []) ++
     (if st = "Stopped" && get "cips" ≠ "" && get "cips" ≠ "-" then [s!"C04 stopped-with-connected-ips cips={get "cips"}"] else []) ++
     (if st = "Stopped" && get "hs" ≠ "" && get "hs" ≠ "0/0" then [s!"C04 stopped-with-pending-handshakes hs={get "hs"}"] else []) ++
     (if st = "Stopped" && get "addrs" ≠ "" && get "addrs" ≠ "0" then [s!"C04 stopped-with-queued-addresses addrs={get "addrs"}"] else [])
